@@ -24,16 +24,19 @@ import (
 //   C02.seq  nothing is uploaded beyond what the consent mode allows
 
 var (
-	vocabPrograms = []string{"golang.org/x/tools/gopls", "cmd/go", "cmd/gofmt", "example.com/tool"}
+	// longProg makes a counter file's metadata about 500 bytes long (the cap is 512)
+	longProg      = "example.com/" + strings.Repeat("verylongpathelement/", 17) + "tool2"
+	vocabPrograms = []string{"golang.org/x/tools/gopls", "cmd/go", "cmd/gofmt", "example.com/tool", longProg}
 	vocabVersions = map[string][]string{
 		"golang.org/x/tools/gopls": {"v0.14.0", "v0.15.1-pre.1", "v1.2.3", "v1.2.30", "devel"},
 		"example.com/tool":         {"v1.0.0", "v1.0.1", ""},
+		longProg:                   {"v1.0.0", "v0.15.1-pre.1"},
 	}
 	vocabGo   = []string{"go1.21.5", "go1.22.1", "go1.22.10", "go1.23rc1", "devel"}
 	vocabOS   = []string{"linux", "darwin", "windows", "plan9"}
 	vocabArch = []string{"amd64", "arm64", "386"}
 	// counter expressions a configuration may list
-	vocabCounterExprs = []string{"editor/opens", "go/cmd/build", "flag:{v,x,json}", "gopls/gotoolchain:{auto,local,other}", "crash/crash", "gopls/client:{vscode,vim}"}
+	vocabCounterExprs = []string{"editor/opens", "go/cmd/build", "flag:{v,x,json}", "gopls/gotoolchain:{auto,local,other}", "crash/crash", "gopls/client:{vscode,vim}", "editor/opens\ufffd", "flag:\ufffd"}
 	vocabStackExprs   = []string{"crash/crash", "gopls/bug", "editor/opens"}
 	frames            = "\ngolang.org/x/tools/gopls.main:+3,+0x1a\n\".run:+10,+0x44\nruntime.main:+100,+0x2"
 )
@@ -59,12 +62,26 @@ func localNames(r *verifrt.Rand, canary string) map[string]uint64 {
 		"crash/crash\nother.pkg.f:+1,+0x1",
 		// private
 		"secret/" + canary + "/a", "private:" + canary, "secretstack/" + canary + frames,
+		// names that are not valid UTF-8 (a report renders them with U+FFFD, which a configuration can list)
+		"editor/opens\xff", "secret/" + canary + "\xfe\xff", "flag:\xc3",
 	}
 	m := map[string]uint64{}
 	n := 1 + r.Intn(10)
 	for i := 0; i < n; i++ {
 		name := pool[r.Intn(len(pool))]
 		m[name] = uint64(1 + r.Intn(1000))
+	}
+	if r.Intn(6) == 0 {
+		// names of exactly the largest length a record can hold: a stack cut
+		// off by the encoder, or a plain name
+		const max = 4096
+		if r.Bool() {
+			deep := "crash/crash" + strings.Repeat(frames, 70)
+			const bad = "\ntruncated\n"
+			m[deep[:max-len(bad)]+bad] = uint64(1 + r.Intn(9))
+		} else {
+			m["big/"+canary+"/"+strings.Repeat("n", max-5-len(canary))] = 1
+		}
 	}
 	return m
 }
@@ -124,6 +141,10 @@ type seqScenario struct {
 	Grow                map[int]int // run index -> file index whose counts grow before that run
 	Canary              string
 	PreLocal, PreUpload map[string]string // pre-existing report files: week -> kind
+	// Stray: a foreign .json file with a short, dateless name in local/ (only in
+	// histories that never run in mode on: nothing is sent there, so the file
+	// is never looked at as a report to upload)
+	Stray string
 }
 
 func day(y int, m time.Month, d int) time.Time { return time.Date(y, m, d, 0, 0, 0, 0, time.UTC) }
@@ -303,6 +324,15 @@ func genSeqScenario(r *verifrt.Rand, i int) *seqScenario {
 		s.Grow = map[int]int{1: 0}
 		s.PreLocal, s.PreUpload = map[string]string{}, map[string]string{}
 	}
+	allLocal := true
+	for _, m := range s.Mode {
+		if strings.HasPrefix(strings.TrimSpace(m), "on") {
+			allLocal = false
+		}
+	}
+	if allLocal && r.Intn(3) == 0 {
+		s.Stray = verifrt.Pick(r, []string{"notes.json", "x.json", ".json", "a.json", "2024.json", "0.json", "package.json"})
+	}
 	// pre-existing reports for some weeks
 	for _, f := range s.Files {
 		if r.Intn(8) == 0 {
@@ -393,7 +423,7 @@ func TestVerifUploadSeq(t *testing.T) {
 			x.Inconc(s)
 		}
 	}
-	cs.c07.Require("week-reported", "multi-file-sum", "multi-build", "boundary-end==start", "unreadable-untouched", "preexisting-report", "rerun", "grown-file", "empty-only-week")
+	cs.c07.Require("stray-json-in-local", "week-reported", "multi-file-sum", "multi-build", "boundary-end==start", "unreadable-untouched", "preexisting-report", "rerun", "grown-file", "empty-only-week")
 	cs.c01.Require("request-checked", "excluded-by-rate", "unlisted-version", "near-miss-dropped", "stack-plain-clash")
 	cs.c02.Require("mode-on-sent", "mode-local", "mode-off", "mode-malformed", "too-old", "asof-blocks", "sample-blocks")
 	cs.c09.Require("end<start:consumed", "end==start:kept", "end>start:kept", "same-day-after-end:consumed")
@@ -428,6 +458,10 @@ func runSeqScenario(c *seqChecks, base string, s *seqScenario, rnd *verifrt.Rand
 			name = w + ".json"
 		}
 		os.WriteFile(filepath.Join(td.dir.LocalDir(), name), []byte(fmt.Sprintf(`{"Week":%q,"LastWeek":"","X":0.123,"Programs":[],"Config":"v0.0.1-pre"}`, w)), 0o644)
+	}
+	if s.Stray != "" {
+		os.WriteFile(filepath.Join(td.dir.LocalDir(), s.Stray), []byte(`{"name":"something else"}`), 0o644)
+		c.c07.Hit("stray-json-in-local")
 	}
 	for w := range s.PreUpload {
 		os.WriteFile(filepath.Join(td.dir.UploadDir(), w+".json"), []byte(fmt.Sprintf(`{"Week":%q,"LastWeek":"","X":0.321,"Programs":[],"Config":"v0.0.1-pre"}`, w)), 0o644)
